@@ -229,10 +229,15 @@ impl<F: Flavour> World<F> {
             Op::SnapshotVia { u, style } => {
                 // styles that visit every element: for_each, try_for_each, fold; the body asks the
                 // iterated node a question (a read lock of its own)
-                let st = match style % 3 {
+                // ... and the two that ask the iterator for its size on the way (`size_hint()`
+                // around every `next()`; `map().collect()`): a hint computed from a length another
+                // thread may have changed since the last step
+                let st = match style % 5 {
                     0 => 3,
                     1 => 4,
-                    _ => 7,
+                    2 => 7,
+                    3 => 1,
+                    _ => 2,
                 };
                 let node = &self.nodes[*u];
                 let mut out = Vec::new();
